@@ -50,6 +50,7 @@ import (
 func hDurationString(d time.Duration) string { return "<duration>" }
 
 const hRaw = "<compact JWS of the presentation>"
+const hOwnID = "urn:uuid:0e7a3b9e"
 
 // ---------------------------------------------------------------------------------------------
 // scenario shared between the harness and its stubs/fakes
@@ -137,7 +138,8 @@ func hJWTKidAlg(tokenString string) (string, jwa.SignatureAlgorithm, error) {
 }
 
 // hDrawStore: up to `entries` rows (service, subject, presentation id). Service is the service under test or
-// another one; subject is the signer's DID or somebody else's; the id is an arbitrary string of jtilen bytes.
+// another one; subject is the signer's DID or somebody else's; the id is an arbitrary string of jtilen bytes or the id
+// of the presentation under test.
 func hDrawStore() {
 	if hS.storeDrawn {
 		return
@@ -160,8 +162,13 @@ func hDrawStore() {
 		if vBool() && hS.signer >= 0 {
 			e.subject = hSigners[hS.signer].subject
 		}
-		vTag("entry.id")
-		e.id = vString(hS.jtiLen)
+		vTag("entry.ownID")
+		if vBool() {
+			e.id = hOwnID // the id of the presentation under test itself
+		} else {
+			vTag("entry.id")
+			e.id = vString(hS.jtiLen)
+		}
 		hS.entries = append(hS.entries, e)
 	}
 }
@@ -503,7 +510,7 @@ type hCase struct {
 func (c *hCase) finish() {
 	c.def = ServiceDefinition{ID: hS.serviceID, DIDMethods: c.methods, Endpoint: "https://example.com/discovery", PresentationMaxValidity: c.maxValid}
 	if c.hasID {
-		id := hURI("urn:uuid:0e7a3b9e")
+		id := hURI(hOwnID)
 		c.vp.ID = &id
 	}
 	vSetField(&c.vp, "format", c.format)
